@@ -70,6 +70,14 @@ DESC = {
  "C17-4": "`write_magnetic_moments`: moments scattered instead of gathered through the species-grouping permutation",
  "C19-4": "`RandomDisplacements.run`: two generators made from the same seed (duplicated variates)",
  "C20-4": "`PhonopyQHA.__init__`: `eos` not forwarded to the static `BulkModulus` fit",
+ "C02-5": "`sparse_to_dense_svecs`: address offsets subtract the first primitive atom's multiplicity for all",
+ "C07-5": "`set_tensor_symmetry_PJ`: Cartesian rotation built as Lᵀ Rᵀ L⁻ᵀ (wrong on non-orthogonal cells)",
+ "C08-5": "Wang charge sum (Python and C): mirror 3×3 block copied untransposed",
+ "C10-5": "`ThermalPropertiesBase.__init__`: `pretend_real` lost when `band_indices` is given",
+ "C11-5": "`ProjectedDos` smearing: modes farther than 10σ dropped (Lorentzian tails)",
+ "C12-5": "Python `_d_nac`: transposed Born tensor in dA (non-symmetric Z*)",
+ "C16-5": "phonopy.yaml: `primitive_matrix` written transposed",
+ "C17-5": "`LammpsForcesLoader`: forces stored in dump line order instead of by atom id",
 }
 rows = []
 for d in sorted(glob.glob('/verif/seeded/C*')):
